@@ -113,3 +113,31 @@ Lemma engine_rejects_dup gs m p1 id1 p2 id2 l1 l2 l3 :
 Proof.
   intros E R1 R2 Ep. destruct (engine_transparent gs) as (k & _ & _ & H2 & _). rewrite H2. eapply sbind_dup; eauto.
 Qed.
+
+(* ---- histories ---- *)
+(* what a router that had the current table from the start answers: the i-th step is judged on
+   build (all registrations attempted before it) *)
+Fixpoint hist_spec (pre : list reg) (ops : list hop) : list hres :=
+  match ops with
+  | [] => []
+  | OReg m p id :: rest => HErr (snd (handle (build pre) m p id)) :: hist_spec (pre ++ [(m, p, id)]) rest
+  | OReq m p :: rest => HOut (route_req (build pre) m p) :: hist_spec pre rest
+  end.
+
+Lemma build_snoc pre r : build (pre ++ [r]) = hstep (build pre) r.
+Proof. rewrite !build_fold, fold_left_app. reflexivity. Qed.
+
+Lemma run_ops_spec ops : forall pre, run_ops (build pre) ops = hist_spec pre ops.
+Proof.
+  induction ops as [|[m p id|m p] rest IH]; intro pre; [reflexivity| |].
+  - cbn [run_ops hist_spec]. destruct (handle (build pre) m p id) as [tb' e] eqn:E. cbn [snd]. f_equal.
+    rewrite <- IH. f_equal. rewrite build_snoc. unfold hstep. cbn [fst snd]. rewrite E. reflexivity.
+  - cbn [run_ops hist_spec]. f_equal. apply IH.
+Qed.
+
+Lemma history_independent ops : run_ops [] ops = hist_spec [] ops.
+Proof. exact (run_ops_spec ops []). Qed.
+
+(* the registration verdicts inside a history are the Spec's *)
+Lemma hist_verdict pre m p id : snd (handle (build pre) m p id) = reject (registered pre) m p.
+Proof. exact (proj1 (rejects pre m p id)). Qed.
